@@ -951,6 +951,70 @@ def correspondence_driver(ctx):
         ctx.discharged.append(ob)
 
 
+WEIGHT_CLASSES = ['none', 'ones', 'random', 'zeros', 'decades']
+
+
+def make_weights(rng, n, cls):
+    if cls == 'none':
+        return None
+    if cls == 'ones':
+        return np.ones(n)
+    if cls == 'random':
+        return rng.uniform(0.05, 1.0, n)
+    if cls == 'zeros':
+        w = rng.uniform(0.2, 1.0, n)
+        w[rng.choice(n, max(1, n // 6), replace=False)] = 0.0
+        return w
+    return 10.0 ** rng.uniform(-6, 3, n)
+
+
+def oracle_strategy_grid(ctx, budget):
+    """deterministic grid for the single-call strategy comparison: user weights {None, ones, random, with zeros, many
+    decades} x max_iter {0, 1, 3} x use_threshold x delta {0, skipping}; conserve_memory True vs False bitwise"""
+    rng = np.random.default_rng(ctx.seed * 1000 + 199)
+    for rep in range(ctx.n(2, 12) * budget):
+        kind = ['uniform', 'random', 'geometric', 'intgrid', 'clustered', 'biggap'][rep % 6]
+        n = int(rng.choice([14, 25, 40]))
+        x = gen_x(rng, n, kind)
+        y = gen_y(rng, x, ['peaks', 'smooth', 'noise'][rep % 3])
+        p = rep % 3
+        tp = int(rng.integers(max(p + 4, n // 3), n + 1))
+        span = float(x[-1] - x[0])
+        for cls in WEIGHT_CLASSES:
+            wts = make_weights(rng, n, cls)
+            for max_iter in (0, 1, 3):
+                for thr in (False, True):
+                    for delta in (0.0, 0.25 * span):
+                        kw = dict(total_points=tp, poly_order=p, max_iter=max_iter, delta=delta, tol=0.0, weights=wts)
+                        if thr:
+                            kw.update(use_threshold=True, use_original=bool(max_iter % 2))
+                        else:
+                            kw['symmetric_weights'] = bool(max_iter == 1)
+                        rt = run_loess(x, y, kw, True)
+                        rf = run_loess(x, y, kw, False)
+                        ctx.case(('grid', rep, cls, max_iter, thr, delta, x.tobytes()), nontrivial=cls not in ('none', 'ones') and rt[0] == 'ok',
+                                 kind=f'grid:weights={cls}:{"threshold" if thr else "robust"}')
+                        if not same_bits(rt, rf):
+                            what = (f'conserve_memory=True and False differ (bitwise) with user weights of class "{cls}", max_iter={max_iter}, '
+                                    f'use_threshold={thr}, delta={delta}, total_points={tp}, poly_order={p}')
+                            if rt[0] == 'ok' and rf[0] == 'ok':
+                                what += f'; max difference {max_ulp(rt, rf):.3g} array-ulps'
+                            else:
+                                what += f'; outcomes {rt[:2] if rt[0] == "exc" else "ok"} vs {rf[:2] if rf[0] == "exc" else "ok"}'
+                            ctx.fail(f'memory:grid:weights={cls}', what, cfg_case({'x': x, 'y': y, 'kw': kw}))
+
+
+def stage(ctx, name, fn, *a):
+    """one stage of the run; an exception (e.g. a private kernel whose signature changed) is a broken obligation and
+    must not stop the search for a concrete failing input in the later stages"""
+    try:
+        return fn(ctx, *a)
+    except Exception:                                           # noqa: BLE001
+        import traceback
+        ctx.broke(f'stage:{name}', traceback.format_exc()[-1200:])
+        return None
+
+
 def run(ctx):
     ctx.rule = ('_determine_fits cases: x uniform/random/clustered/repeated/big-last-gap/integer/geometric, N 1..60 (oracle to 1500), '
                 'total_points 1..N (N, 1, N-1, 2 over-represented), delta 0, <0, below the smallest gap, a gap exactly, median gap, span, '
@@ -971,17 +1035,18 @@ def run(ctx):
     ok = ctx.build_props(extra=['C19/Float.vo', 'C19/HistoryProofs.vo'])
     ok2 = ctx.build_props(rel='props/C19_state.v')
     ok = ok and ok2
-    correspondence_fits(ctx)
-    correspondence_fill(ctx)
-    correspondence_kernels(ctx)
-    correspondence_driver(ctx)
+    stage(ctx, 'correspondence_fits', correspondence_fits)
+    stage(ctx, 'correspondence_fill', correspondence_fill)
+    stage(ctx, 'correspondence_kernels', correspondence_kernels)
+    stage(ctx, 'correspondence_driver', correspondence_driver)
     budget = 1 if (ok and not ctx.broken) else 4
-    oracle_fits(ctx, budget)
-    oracle_loess(ctx, budget)
-    oracle_poly(ctx, budget)
-    oracle_bruteforce(ctx, budget)
-    oracle_histories(ctx, budget)
-    observation_second_last(ctx)
+    stage(ctx, 'oracle_strategy_grid', oracle_strategy_grid, budget)
+    stage(ctx, 'oracle_fits', oracle_fits, budget)
+    stage(ctx, 'oracle_loess', oracle_loess, budget)
+    stage(ctx, 'oracle_poly', oracle_poly, budget)
+    stage(ctx, 'oracle_bruteforce', oracle_bruteforce, budget)
+    stage(ctx, 'oracle_histories', oracle_histories, budget)
+    stage(ctx, 'observation_second_last', observation_second_last)
     ctx.note(f'oracle budget x{budget}; not covered: 2-D, unsorted x (C02), non-finite data, N > 1500, poly_order > 3; '
              'compiled-vs-interpreted values compared within an array-ulp budget only for well-conditioned local systems '
              '(total_points >= poly_order + 3, poly_order <= 2), outcomes (exception kinds, iteration counts) for all')
